@@ -158,7 +158,7 @@ def step (s : DState) (toks : List String) : DState × List String :=
     let kOk := match rest.getLast? with
       | some k => (match parseDec k with | some n => decide (1 ≤ n ∧ n ≤ 1000) | none => false)
       | none => false
-    if !(rest.length == 1 || zero) || !kOk || (parseIdx j 8).isNone || (parseHex hex).isNone then (s, bad)
+    if !(rest.length == 1 || zero) || !kOk || (parseIdx j 32).isNone || (parseHex hex).isNone then (s, bad)
     else ({ s with nest := some (["rx", j, hex] ++ (if zero then ["zero"] else [])) }, ["ok"])
   | ["poison", b] =>
     match parseDec b with
@@ -323,6 +323,18 @@ def step (s : DState) (toks : List String) : DState × List String :=
             let (tb', r) := tb.add mac gen seq now
             fin tb' [showRet r]
           | _, _ => (s, bad)
+        | "readd", [m, g, g2, q] =>
+          -- the "move the mapper to its new generation" idiom of a glue: remove the session found, add it again under the new
+          -- generation — the implementation passes the address bytes of the entry it has just removed as the key
+          match macGen m g, macGen m g2, parseDec q with
+          | some (mac, gen), some (_, gen2), some seq =>
+            if seq > 65535 then (s, bad) else
+            match tb.find mac gen with
+            | none => fin tb ["ret -1"]
+            | some _ =>
+              let (tb', r) := (tb.remove mac gen).add mac gen2 seq now
+              fin tb' [showRet r]
+          | _, _, _ => (s, bad)
         | "find", [m, g] =>
           match macGen m g with
           | some (mac, gen) => fin tb [showRet (tb.find mac gen)]
